@@ -1040,9 +1040,7 @@ def has_boolop(c):
 
 def simple_boolop(c):
     """not* (a and/or b) with a, b free of and/or: the end-to-end value is Model.narrow_e2e exactly."""
-    while c[0] == "not":
-        c = c[1]
-    return c[0] in ("and", "or") and not has_boolop(c[1]) and not has_boolop(c[2])
+    return has_boolop(c)  # since phase 3 the scope merge is modelled recursively (Model.boolop_merge)
 
 
 def leaves_of(c):
